@@ -399,7 +399,7 @@ theorem elines_renderNode (c : RCtx) (L : List Nat) :
     refine okM_wrapFailAt _ L line hline (okM_bind (okM_getVar _) (fun lv _ => ?_))
     split
     · exact okM_fail _ ⟨hline, rfl⟩
-    · exact okM_bind (okM_setVar _ _) (fun _ _ => okM_bind (okM_nf (okM_write _)) (fun _ _ => okM_pure _ True.intro))
+    · exact okM_bind (okM_setVar _ _) (fun _ _ => okM_bind (okM_nf (okM_writeVerbatim _)) (fun _ _ => okM_pure _ True.intro))
   | .brk line, _, hL => by
     unfold renderNode
     have hline : line ∈ L := hL _ (by simp [Node.elines])
